@@ -33,9 +33,25 @@ func init() {
 // scribble overwrites a byte buffer the caller handed to a parser: the caller is free to reuse its read
 // buffer once the call has returned, and the result must not change with it.
 func scribble(b []byte) {
+	scribbleSeen++
 	for i := range b {
 		b[i] = "/=\" 0Zz\n"[i%8]
 	}
+}
+
+var scribbleSeen int
+
+// unchangedThenScribble reports a parser that wrote into the bytes it was given (the caller still owns them:
+// a second parse of the same slice, or writing them to disk, must see the file as it was), then overwrites them.
+func unchangedThenScribble(w *mon.W, id, what string, b []byte, orig string) {
+	if string(b) != orig {
+		at := 0
+		for at < len(b) && at < len(orig) && b[at] == orig[at] {
+			at++
+		}
+		w.Violation(id, fmt.Sprintf("%s changed the bytes it was given (first difference at offset %d of %d): the caller's copy of the file is no longer the file", what, at, len(orig)), map[string]any{"input": clip(orig, 4000)})
+	}
+	scribble(b)
 }
 
 type c01Kept struct {
@@ -170,7 +186,7 @@ func runC01(w *mon.W) {
 				entry = "ParseFlat"
 				buf := []byte(file)
 				p = mon.Try(func() { got = genbank.ParseFlat(buf) })
-				scribble(buf)
+				unchangedThenScribble(w, id, "genbank.ParseFlat", buf, file)
 			case 1:
 				entry = "ReadFlat"
 				path := filepath.Join(tmp, "f.seq")
@@ -196,7 +212,7 @@ func runC01(w *mon.W) {
 				entry = "Parse"
 				buf := []byte(file)
 				p = mon.Try(func() { got = []poly.Sequence{genbank.Parse(buf)} })
-				scribble(buf)
+				unchangedThenScribble(w, id, "genbank.Parse", buf, file)
 			}
 		default:
 			if mode == 5 {
@@ -208,7 +224,7 @@ func runC01(w *mon.W) {
 				entry = "ParseMulti"
 				buf := []byte(file)
 				p = mon.Try(func() { got = genbank.ParseMulti(buf) })
-				scribble(buf)
+				unchangedThenScribble(w, id, "genbank.ParseMulti", buf, file)
 			}
 		}
 		w.Add("entry_"+entry, 1)
